@@ -1,11 +1,14 @@
 (* Props/C15.v — property C15 (directories and stdin path lists expand to the same run as explicit
    files): statements only.  PARTIAL claim: the filesystem (stat/readdir/readlink/canonicalize)
    and jwalk are oracles — a [tree] with pre-resolved links is what they answer; symlink loops,
-   permission errors and races are not exhibited.  The classifier is C16's model. *)
+   permission errors and races are not exhibited.  The classifier is C16's model.
+   Work package L: path STRINGS (lookup_str = the kernel's resolution, rjoin/walk_base = jwalk's
+   rendering), stdin at the BYTE level, and the run-level equivalence over program_spec. *)
 From Coq Require Import Sorting.Sorted.
 From S4.Base Require Import Bytes.
-From S4.Model Require Import Classify Walk.
-From S4.Proofs Require Import WalkProofs.
+From S4.Model Require Import Classify Walk WalkRun.
+From S4.Model Require Program.
+From S4.Proofs Require Import WalkProofs WalkLookup WalkStdin WalkRun.
 Open Scope N_scope.
 
 (* the walk (DFS pre-order, children sorted by name as jwalk's sort(true) does) lists entries in
@@ -45,12 +48,11 @@ Theorem process_path_of_file :
 Proof. exact process_path_file. Qed.
 Print Assumptions process_path_of_file.
 
-(* processed(DIR) = processed(explicit list, in walk order, of the regular files whose own name is
+(* ENTRY level (the original statement; the string level is [dir_equiv_explicit] below):
+   processed(DIR) = processed(explicit list, in walk order, of the regular files whose own name is
    not of a known non-log type), provided every symlink's name selects the same reader as its
-   target's name; the entries left out contribute nothing or one NotSupported record.
-   _partial: stated on the walk's entries (path, node); that process_path on the explicit path
-   string finds that node again (lookup from the root) is not proved. *)
-Theorem dir_equiv_explicit_partial :
+   target's name; the entries left out contribute nothing, one NotSupported or one NotAFile record. *)
+Theorem dir_equiv_explicit_entries :
   forall sfx name junk junk_lead root_str uat (E : list (path * tree)),
     (forall e, In e E -> kept sfx name junk junk_lead e = true -> link_agrees sfx name junk junk_lead e) ->
     flat_map (walked_result sfx name junk junk_lead root_str uat) (filter (kept sfx name junk junk_lead) E)
@@ -59,9 +61,117 @@ Theorem dir_equiv_explicit_partial :
        = valids (flat_map (explicit_result sfx name junk junk_lead root_str uat) (filter (kept sfx name junk junk_lead) E))
     /\ (forall e, In e E -> kept sfx name junk junk_lead e = false ->
           walked_result sfx name junk junk_lead root_str uat e = []
-          \/ walked_result sfx name junk junk_lead root_str uat e = [PNotSupported (pstr root_str (fst e))]).
+          \/ walked_result sfx name junk junk_lead root_str uat e = [PNotSupported (pstr root_str (fst e))]
+          \/ walked_result sfx name junk junk_lead root_str uat e = [PNotAFile (pstr root_str (fst e))]).
 Proof. exact dir_equiv_explicit_thm. Qed.
-Print Assumptions dir_equiv_explicit_partial.
+Print Assumptions dir_equiv_explicit_entries.
+
+(* ---------------------------------------------------------------- path strings (work package L) *)
+
+(* LOOKUP FROM THE ROOT.  For every entry (p, n) of the walk of the node that the typed string
+   names, the path string jwalk renders for that entry (PathBuf::push from the string as typed, or
+   from parent().join(file_name()) when the root is a symlink; the same normalisation once more
+   for an entry that is itself a symlink) resolves — kernel rules: split at
+   '/', "" and "." components, "..", links followed in the middle — to a node c that the walk saw
+   as n (the walk sorts and prunes what it reads), at a canonical location whose file name is the
+   entry's name. *)
+Theorem lookup_walk :
+  forall root typed cp0 t0,
+    lookup_str root typed = Found cp0 t0 -> names_proper t0 -> names_unique t0 ->
+    forall p n, In (p, n) (walk [] t0) ->
+      exists cpx c, lookup_str root (entry_str (walk_base typed t0) (p, n)) = Found cpx c
+                    /\ sort_tree (prune c) = n /\ last cpx [] = last p [].
+Proof. exact lookup_walk_thm. Qed.
+Print Assumptions lookup_walk.
+
+(* names for which render/lookup is not the identity (empty, ".", "..", containing '/') and hidden
+   names do not occur in walk output; splitting the joined components gives them back *)
+Theorem walk_components_proper :
+  forall t0 p n,
+    names_proper t0 -> names_unique t0 -> In (p, n) (walk [] t0) ->
+    p <> [] /\ Forall (fun m => proper m = true) p /\ Forall (fun m => is_hidden m = false) p
+    /\ split_slash (join p) = p.
+Proof. exact walk_components_proper_thm. Qed.
+Print Assumptions walk_components_proper.
+
+Theorem proper_names :
+  forall n, proper n = true <-> n <> [] /\ n <> [dot] /\ n <> [dot; dot] /\ has_slash n = false.
+Proof. exact proper_spec. Qed.
+Print Assumptions proper_names.
+
+(* the walk is complete: every entry beneath (links followed) with no hidden component is listed *)
+Theorem walk_complete :
+  forall p t c,
+    p <> [] -> Forall (fun m => is_hidden m = false) p -> lookup p t = Some c ->
+    In (p, sort_tree (prune c)) (walk [] t).
+Proof. exact walk_complete_thm. Qed.
+Print Assumptions walk_complete.
+
+(* FINDING (jwalk's default skip_hidden, not changed by process_path): a regular file beneath the
+   directory whose name starts with '.' is not walked *)
+Theorem hidden_file_not_walked_refuted :
+  exists t p, names_proper t /\ names_unique t /\ lookup p t = Some (File [])
+              /\ ~ In p (map fst (walk [] t)).
+Proof. exact hidden_file_not_walked_refuted_thm. Qed.
+Print Assumptions hidden_file_not_walked_refuted.
+
+(* the normalisation jwalk applies to the path of a root that is a symlink names the same node *)
+Theorem root_normalisation_keeps_target :
+  forall root typed, lookup_str root (norm_root typed) = lookup_str root typed.
+Proof. exact lookup_norm_root. Qed.
+Print Assumptions root_normalisation_keeps_target.
+
+(* THE FULL STATEMENT ON PATH STRINGS: process_path(DIR string) is the walk; process_path over the
+   explicit path strings (as rendered, in walk order) of the kept regular files gives the same
+   records, string for string; the FileValid records of both coincide; what is left out yields no
+   FileValid record.  Hypothesis = negation of the recorded finding class (a symlink's own name
+   selects another reader than its target's name). *)
+Theorem dir_equiv_explicit :
+  forall sfx name junk junk_lead root uat typed cp0 t0 cs,
+    lookup_str root typed = Found cp0 t0 -> resolve t0 = Dir cs ->
+    names_proper t0 -> names_unique t0 ->
+    (forall e, In e (walk [] t0) -> kept sfx name junk junk_lead e = true -> link_agrees sfx name junk junk_lead e) ->
+    process_path_s sfx name junk junk_lead root uat typed
+    = flat_map (walked_s sfx name junk junk_lead typed t0 uat) (walk [] t0)
+    /\ flat_map (process_path_s sfx name junk junk_lead root uat) (explicit_list sfx name junk junk_lead typed t0)
+       = flat_map (walked_s sfx name junk junk_lead typed t0 uat) (filter (kept sfx name junk junk_lead) (walk [] t0))
+    /\ valids (process_path_s sfx name junk junk_lead root uat typed)
+       = valids (flat_map (process_path_s sfx name junk junk_lead root uat) (explicit_list sfx name junk junk_lead typed t0))
+    /\ (forall e, In e (walk [] t0) -> kept sfx name junk junk_lead e = false ->
+          walked_s sfx name junk junk_lead typed t0 uat e = []
+          \/ walked_s sfx name junk junk_lead typed t0 uat e = [PNotSupported (entry_str (walk_base typed t0) e)]
+          \/ walked_s sfx name junk junk_lead typed t0 uat e = [PNotAFile (entry_str (walk_base typed t0) e)]).
+Proof. exact dir_equiv_explicit_str_thm. Qed.
+Print Assumptions dir_equiv_explicit.
+
+(* canonicalize is sound: the canonical location is link-free and holds the node reached *)
+Theorem lookup_canonical :
+  forall root s cp t cp' t',
+    links_ok root root -> is_link root = false ->
+    lookup_str root s = Found cp t -> resolve_at cp t = (cp', t') ->
+    node_at root cp' = Some t'.
+Proof. exact lookup_canonical_thm. Qed.
+Print Assumptions lookup_canonical.
+
+(* "x/n/.." names x again when n is a real directory of x ... *)
+Theorem dotdot_cancels_real_dir :
+  forall root s cp t cp1 cs n nc ds,
+    links_ok root root -> is_link root = false ->
+    lookup_str root s = Found cp t -> resolve_at cp t = (cp1, Dir cs) ->
+    proper n = true -> find (fun nc => beqb (fst nc) n) cs = Some nc -> snd nc = Dir ds ->
+    lookup_str root (s ++ slash :: n ++ slash :: [dot; dot]) = Found cp1 (Dir cs).
+Proof. exact dotdot_cancels_real_dir_thm. Qed.
+Print Assumptions dotdot_cancels_real_dir.
+
+(* ... and not when n is a symlink to a directory elsewhere ("a/l/.." with a/l -> b/d is b) *)
+Theorem dotdot_through_link_refuted :
+  links_ok dd_tree dd_tree /\ is_link dd_tree = false
+  /\ (exists cs, lookup_str dd_tree [97] = Found [[97]] (Dir cs)
+                 /\ lookup_str dd_tree [97; 47; 108; 47; 46; 46] <> Found [[97]] (Dir cs))
+  /\ (exists f, lookup_str dd_tree [97; 47; 108; 47; 46; 46; 47; 120] = Found [[98]; [120]] f)
+  /\ lookup_str dd_tree [97; 47; 120] = NoEnt.
+Proof. exact dotdot_through_link_refuted_thm. Qed.
+Print Assumptions dotdot_through_link_refuted.
 
 (* a file named explicitly is always attempted, whatever its name: one FileValid record with a
    parsable type (or, for a .tar, its members) *)
@@ -95,6 +205,107 @@ Theorem stdin_second_dash_ignored :
 Proof. exact second_dash_ignored. Qed.
 Print Assumptions stdin_second_dash_ignored.
 
+(* ---------------------------------------------------------------- stdin as BYTES (work package L) *)
+
+(* BufRead::lines on "paths joined by \n, with or without a final \n" gives the paths back: nothing
+   is trimmed, empty lines are (empty) paths; for all paths that are valid UTF-8, hold no "\n" and
+   do not end in "\r" (without the final "\n" the last path must not be empty) *)
+Theorem stdin_lines_join :
+  forall paths final,
+    Forall (fun p => line_safe p = true) paths ->
+    (final = false -> last paths [0] <> []) ->
+    stdin_lines (join_lines paths final) = paths.
+Proof. exact stdin_lines_join_thm. Qed.
+Print Assumptions stdin_lines_join.
+
+(* args_of (argv with '-') (stdin bytes) = argv with the paths spliced in *)
+Theorem stdin_equiv_bytes :
+  forall l1 l2 l3 final,
+    (forall a, In a l1 -> is_dash_b a = false) -> (forall a, In a l3 -> is_dash_b a = false) ->
+    Forall (fun p => line_safe p = true) l2 ->
+    (final = false -> last l2 [0] <> []) ->
+    args_of (l1 ++ dash :: l3) (join_lines l2 final) = l1 ++ l2 ++ l3.
+Proof. exact stdin_equiv_bytes_thm. Qed.
+Print Assumptions stdin_equiv_bytes.
+
+(* CRLF line ends give the same paths (one "\r" before "\n" is removed) ... *)
+Theorem stdin_lines_crlf :
+  forall paths,
+    Forall (fun p => utf8_valid p = true /\ no_nl p) paths ->
+    stdin_lines (join_lines (map (fun p => p ++ [cr]) paths) true) = paths.
+Proof. exact stdin_lines_crlf_thm. Qed.
+Print Assumptions stdin_lines_crlf.
+
+(* ... so a legal path that itself ends in "\r" loses it when a "\n" follows (FINDING) *)
+Theorem stdin_trailing_cr_lost :
+  forall p, utf8_valid p = true -> no_nl p -> stdin_lines ((p ++ [cr]) ++ [nl]) = [p].
+Proof. exact stdin_trailing_cr_lost_thm. Qed.
+Print Assumptions stdin_trailing_cr_lost.
+
+Theorem stdin_trailing_cr_refuted :
+  exists p, utf8_valid p = true /\ no_nl p /\ stdin_lines (p ++ [nl]) <> [p].
+Proof. exact stdin_trailing_cr_refuted_thm. Qed.
+Print Assumptions stdin_trailing_cr_refuted.
+
+(* the first line that is not valid UTF-8 ends the list: it and everything after it are dropped *)
+Theorem stdin_invalid_truncates :
+  forall good bad rest,
+    Forall (fun p => line_safe p = true) good ->
+    utf8_valid bad = false -> no_nl bad ->
+    stdin_lines (flat_map (fun p => p ++ [nl]) good ++ bad ++ nl :: rest) = good.
+Proof. exact stdin_invalid_truncates_thm. Qed.
+Print Assumptions stdin_invalid_truncates.
+
+Theorem stdin_blanks_kept :
+  stdin_lines [32; 97; 32; 10; 10; 9; 98] = [[32; 97; 32]; []; [9; 98]]
+  /\ line_safe [32; 97; 32] = true /\ line_safe [] = true /\ line_safe [9; 98] = true
+  /\ args_of [[120]; dash; [121]] (join_lines [[32; 97; 32]; []; [9; 98]] false) = [[120]; [32; 97; 32]; []; [9; 98]; [121]].
+Proof. exact stdin_blanks_example. Qed.
+Print Assumptions stdin_blanks_kept.
+
+(* ---------------------------------------------------------------- the run (work package L) *)
+
+(* `s4 DIR`, `s4 <explicit strings in walk order>` and every argv/stdin split of that list are the
+   same run: whatever the rest of the program [prog] computes from the list of opened sources
+   (one per FileValid record, in order), and whatever the files hold [file_of] *)
+Theorem run_equiv :
+  forall sfx name junk junk_lead (file_of : bytes -> ftype -> Program.pfile)
+         (R : Type) (prog : list Program.pfile -> R) root typed cp0 t0 cs,
+    lookup_str root typed = Found cp0 t0 -> resolve t0 = Dir cs ->
+    names_proper t0 -> names_unique t0 ->
+    (forall e, In e (walk [] t0) -> kept sfx name junk junk_lead e = true -> link_agrees sfx name junk junk_lead e) ->
+    is_dash_b typed = false ->
+    run_output sfx name junk junk_lead file_of R prog root [typed] []
+    = run_output sfx name junk junk_lead file_of R prog root (explicit_list sfx name junk junk_lead typed t0) []
+    /\ forall l1 l2 l3 final,
+         explicit_list sfx name junk junk_lead typed t0 = l1 ++ l2 ++ l3 ->
+         Forall (fun p => line_safe p = true) l2 ->
+         (final = false -> last l2 [0] <> []) ->
+         run_output sfx name junk junk_lead file_of R prog root (l1 ++ dash :: l3) (join_lines l2 final)
+         = run_output sfx name junk junk_lead file_of R prog root [typed] [].
+Proof. exact run_equiv_thm. Qed.
+Print Assumptions run_equiv.
+
+(* ... in particular the stdout items and summary totals of the composed program specification
+   (Model/Program.v program_spec, C01/C06), for all its oracles and all options *)
+Theorem run_equiv_program_spec :
+  forall sfx name junk junk_lead (file_of : bytes -> ftype -> Program.pfile)
+         (O : spec_oracles) (o : Program.options) root typed cp0 t0 cs,
+    lookup_str root typed = Found cp0 t0 -> resolve t0 = Dir cs ->
+    names_proper t0 -> names_unique t0 ->
+    (forall e, In e (walk [] t0) -> kept sfx name junk junk_lead e = true -> link_agrees sfx name junk junk_lead e) ->
+    is_dash_b typed = false ->
+    run_output sfx name junk junk_lead file_of _ (spec_prog O o) root [typed] []
+    = run_output sfx name junk junk_lead file_of _ (spec_prog O o) root (explicit_list sfx name junk junk_lead typed t0) []
+    /\ forall l1 l2 l3 final,
+         explicit_list sfx name junk junk_lead typed t0 = l1 ++ l2 ++ l3 ->
+         Forall (fun p => line_safe p = true) l2 ->
+         (final = false -> last l2 [0] <> []) ->
+         run_output sfx name junk junk_lead file_of _ (spec_prog O o) root (l1 ++ dash :: l3) (join_lines l2 final)
+         = run_output sfx name junk junk_lead file_of _ (spec_prog O o) root [typed] [].
+Proof. exact run_equiv_spec_thm. Qed.
+Print Assumptions run_equiv_program_spec.
+
 (* hypotheses are satisfiable *)
 Theorem walk_hypotheses_satisfiable :
   names_unique ex_tree
@@ -103,3 +314,31 @@ Theorem walk_hypotheses_satisfiable :
          [[115; 117; 98; 33; 120]] ].
 Proof. exact walk_example. Qed.
 Print Assumptions walk_hypotheses_satisfiable.
+
+Theorem lookup_hypotheses_satisfiable :
+  links_ok lk_tree lk_tree /\ names_proper lk_tree /\ names_unique lk_tree
+  /\ (exists t0, lookup_str lk_tree [116; 111; 112; 47; 47] = Found [[116; 111; 112]] t0
+       /\ map (entry_str (walk_base [116; 111; 112; 47; 47] t0)) (walk [] t0)
+          = [ [116; 111; 112; 47; 47; 97; 46; 108; 111; 103];
+              [116; 111; 112; 47; 108; 100];
+              [116; 111; 112; 47; 47; 108; 100; 47; 112; 46; 108; 111; 103];
+              [116; 111; 112; 47; 47; 115; 117; 98];
+              [116; 111; 112; 47; 47; 115; 117; 98; 47; 115; 46; 108; 111; 103] ])
+  /\ (exists t0 cs, lookup_str lk_tree [46; 47; 116; 111; 112; 47; 46; 47; 108; 100] = Found [[116; 111; 112]; [108; 100]] t0
+       /\ resolve t0 = Dir cs
+       /\ walk_base [46; 47; 116; 111; 112; 47; 46; 47; 108; 100] t0 = [46; 47; 116; 111; 112; 47; 108; 100]).
+Proof. exact lookup_example. Qed.
+Print Assumptions lookup_hypotheses_satisfiable.
+
+Theorem run_hypotheses_satisfiable :
+  forall sfx name junk junk_lead,
+  exists cs,
+    lookup_str lk_tree [116; 111; 112] = Found [[116; 111; 112]] lk_top /\ resolve lk_top = Dir cs
+    /\ names_proper lk_top /\ names_unique lk_top
+    /\ (forall e, In e (walk [] lk_top) -> kept sfx name junk junk_lead e = true -> link_agrees sfx name junk junk_lead e)
+    /\ is_dash_b [116; 111; 112] = false
+    /\ length (walk [] lk_top) = 5%nat
+    /\ Forall (fun p => line_safe p = true)
+              (map (entry_str (walk_base [116; 111; 112] lk_top)) (walk [] lk_top)).
+Proof. exact run_hypotheses_example. Qed.
+Print Assumptions run_hypotheses_satisfiable.
